@@ -9,6 +9,7 @@ dds.eval at depth 1..4 must raise the corresponding DDS error, execute no user f
 store untouched.
 """
 import itertools
+import sys
 import json
 
 from . import common, ws, execlog
@@ -194,6 +195,58 @@ def run(ctx):
                 for entry_kind in ("eval", "keep"):
                     entry = (lambda m: dds.eval(m.c0)) if entry_kind == "eval" else (lambda m: dds.keep("/entry", m.c0))
                     run_case(w, src, entry, "CIRCULAR_CALL", "cycle %s entry %s" % ("-".join(combo), entry_kind))
+        # cycles through a second module, reached by a module-level import, a from-import or an import inside the function body
+        # (the second module then is not loaded yet when the first evaluation is analysed)
+        import os as _os
+        for how in ("import", "from_import", "lazy_import", "lazy_import"):
+            for back in ("lazy_import", "import"):
+                for entry_kind in ("eval", "keep"):
+                    na, nb = w.unique("c11a"), w.unique("c11b")
+                    if how == "import":
+                        a_body = "import %s\n\ndef c0():\n    log('c0')\n    return %s.c1()\n" % (nb, nb)
+                    elif how == "from_import":
+                        if back == "import":
+                            continue          # two modules importing names from each other at load time cannot be imported at all
+                        a_body = "from %s import c1\n\ndef c0():\n    log('c0')\n    return c1()\n" % nb
+                    else:
+                        a_body = "def c0():\n    log('c0')\n    import %s\n    return %s.c1()\n" % (nb, nb)
+                    if back == "import":
+                        b_body = "import %s\n\ndef c1():\n    log('c1')\n    return %s.c0()\n" % (na, na)
+                    else:
+                        b_body = "def c1():\n    log('c1')\n    import %s\n    return %s.c0()\n" % (na, na)
+                    # the second module is only written (and accepted), not imported by the harness
+                    with open(_os.path.join(w.dir, nb + ".py"), "w") as fh:
+                        fh.write(HEAD + b_body)
+                    dds.accept_module(nb)
+                    w.pkgs.append(nb)
+                    entry = (lambda m: dds.eval(m.c0)) if entry_kind == "eval" else (lambda m: dds.keep("/entry2", m.c0))
+                    for attempt in ("first evaluation in the process", "second evaluation"):
+                        execlog.clear()
+                        inner._cache["preexisting"] = "v"
+                        inner._paths["/pre"] = "preexisting"
+                        snap = (dict(inner._cache), dict(inner._paths))
+                        try:
+                            mod = sys.modules.get(na) or w.write_module(na, HEAD + a_body)
+                            out = ("returned", repr(entry(mod)))
+                        except DDSException as e:
+                            out = ("dds_error", e.error_code.name if e.error_code is not None else None)
+                        except RecursionError:
+                            out = ("exc", "RecursionError")
+                        except BaseException as e:
+                            out = ("exc", type(e).__name__ + ": " + str(e)[:80])
+                        ws.reset_dds_state()
+                        log = execlog.snapshot()
+                        changed = (dict(inner._cache), dict(inner._paths)) != snap
+                        res.evaluations += 1
+                        res.nontrivial("two-module cycle %s/%s %s %s" % (how, back, entry_kind, attempt))
+                        if out != ("dds_error", "CIRCULAR_CALL") or log or changed:
+                            res.violations.append({
+                                "what": "ill-formed evaluation (CIRCULAR_CALL expected): a cycle through a second module (%s there, %s back), %s: outcome %s, "
+                                        "user functions executed %s, store changed %s" % (how, back, attempt, out, log[:6], changed),
+                                "input": {"case": "two-module cycle", "module_a": HEAD + a_body, "module_b": HEAD + b_body, "entry": entry_kind}, "kf": None})
+                            break
+                        inner._cache.clear()
+                        inner._paths.clear()
         # nested eval at depth 1..4
         for depth in range(1, 5):
             for via in ("call", "keep"):
